@@ -34,12 +34,25 @@ using namespace votca;
 using namespace votca::xtp;
 namespace po = boost::program_options;
 
-enum { EV_EXEC = 1, EV_REPORT, EV_SYNC_BEGIN, EV_SYNC_END, EV_IO, EV_CRASH, EV_INV_FAIL, EV_PROC_DONE, EV_EXC, EV_COMMIT, EV_INSTANTS };
+enum { EV_EXEC = 1, EV_REPORT, EV_SYNC_BEGIN, EV_SYNC_END, EV_IO, EV_CRASH, EV_INV_FAIL, EV_PROC_DONE, EV_EXC, EV_COMMIT, EV_INSTANTS, EV_ABS };
 enum { K_NONE = 0, K_FILE = 1, K_BACKUP = 2, K_LOCK = 3 };
+// abstract protocol steps (models/JobFile.tla): logged as EV_ABS(pid, step)
+enum { A_LOCK = 1, A_LOAD, A_TRUNCB, A_WRITEB, A_TRUNCF, A_WRITEF, A_UNLOCK, A_EXEC, A_REPORT };
+static const char *ABSNAME[] = {"?", "lock", "load", "truncB", "writeB", "truncF", "writeF", "unlock", "exec", "report"};
 
 // ------------------------------------------------------------------ I/O + lock model (baton holder only)
 namespace io {
 bool on = false;
+int wmode_of_fd[1024];  // 1 = opened for writing
+std::vector<std::pair<int, int>> abs_expect;  // model path forced onto the implementation: (pid, step)
+size_t abs_pos = 0;
+bool abs_mismatch = false;
+void log_abs(int step) {
+  int pid = vs_simpid();
+  if (!abs_expect.empty() && abs_pos < abs_expect.size() && (abs_expect[abs_pos].first != pid || abs_expect[abs_pos].second != step)) abs_mismatch = true;
+  abs_pos++;
+  vs_log(EV_ABS, pid, step);
+}
 int kind_of_fd[1024];
 int pid_of_fd[1024];
 int nwrites_fd[1024], nreads_fd[1024];  // calls since open: only the first of each is a scheduling point
@@ -153,6 +166,8 @@ static FILE *do_fopen(const char *path, const char *mode) {
     io::kind_of_fd[fd] = k;
     io::pid_of_fd[fd] = vs_simpid();
     io::nwrites_fd[fd] = io::nreads_fd[fd] = 0;
+    io::wmode_of_fd[fd] = trunc ? 1 : 0;
+    if (trunc) io::log_abs(k == K_FILE ? A_TRUNCF : A_TRUNCB);
     if (trunc) {
       io::mirror[k].clear();
       io::complete_cache[k] = -1;
@@ -171,7 +186,11 @@ int fclose(FILE *f) {
   int rc = real_fclose(f);  // flushes through our write()
   if (k && fd >= 0 && fd < 1024) {
     io::kind_of_fd[fd] = 0;
-    if (k == K_FILE && io::controlled()) { io::committed = io::mirror[K_FILE]; vs_log(EV_COMMIT, io::ioevents, 0); }
+    if (io::controlled() && k != K_LOCK) {
+      if (io::wmode_of_fd[fd]) io::log_abs(k == K_FILE ? A_WRITEF : A_WRITEB);
+      else if (k == K_FILE) io::log_abs(A_LOAD);
+    }
+    if (k == K_FILE && io::wmode_of_fd[fd] && io::controlled()) { io::committed = io::mirror[K_FILE]; vs_log(EV_COMMIT, io::ioevents, 0); }
   }
   return rc;
 }
@@ -272,7 +291,12 @@ static int do_fcntl(int fd, int cmd, void *arg) {
   if (fd >= 0 && fd < 1024 && io::kind_of_fd[fd] == K_LOCK && io::controlled() && (cmd == F_SETLK || cmd == F_SETLKW)) {
     struct flock *fl = (struct flock *)arg;
     int pid = vs_simpid();
-    if (fl->l_type == F_UNLCK) { io::set_lock(pid, F_UNLCK); return 0; }
+    if (fl->l_type == F_UNLCK) {
+      vs_yield(38);  // a point before the release, so that the steps of models/JobFile.tla are separately schedulable
+      io::set_lock(pid, F_UNLCK);
+      io::log_abs(A_UNLOCK);
+      return 0;
+    }
     io::LkReq rq{pid, fl->l_type};
     if (cmd == F_SETLKW) {
       vs_point_cond(VS_OP_FLOCK, fl->l_type == F_WRLCK ? 2 : 1, io::lock_enabled, &rq);
@@ -281,6 +305,7 @@ static int do_fcntl(int fd, int cmd, void *arg) {
       if (!io::lock_free_for(pid, fl->l_type)) { errno = EAGAIN; return -1; }
     }
     io::set_lock(pid, fl->l_type);
+    io::log_abs(A_LOCK);
     return 0;
   }
   return (int)syscall(SYS_fcntl, fd, cmd, arg);
@@ -395,14 +420,16 @@ void JobOp::Run() {
     while (true) {
       Job *job = proc->obs.RequestNextJob(*this);
       if (job == nullptr) break;
+      vs_yield(500);  // (a point between the end of RequestNextJob and the start of the job, as in the model)
       vs_log(EV_EXEC, proc->pid * 100 + getId(), job->getId());
-      vs_yield(500);
+      io::log_abs(A_EXEC);
       Job::JobResult res;
       res.setStatus(Job::COMPLETE);
       res.setOutput("out" + std::to_string(job->getId()) + "by" + std::to_string(proc->pid));
       vs_yield(501);
       proc->obs.ReportJobDone(*job, res, *this);
       vs_log(EV_REPORT, proc->pid * 100 + getId(), job->getId());
+      io::log_abs(A_REPORT);
     }
   } catch (std::exception &e) {
     vs_log(EV_EXC, proc->pid, 1);
@@ -443,6 +470,17 @@ void Proc::Run() {
 
 static const int PID0 = 1001;
 
+// scheduling oracle used when a model path is forced onto the implementation: run the root thread whenever it can
+// run (it only creates and joins the process threads), otherwise a thread of the process whose step comes next
+static int abs_chooser(int, const int *list, int n, void *) {
+  for (int i = 0; i < n; i++) if (list[i] == 0) return i;
+  if (io::abs_mismatch) return -1;
+  if (io::abs_pos >= io::abs_expect.size()) return 0;
+  int want = io::abs_expect[io::abs_pos].first;
+  for (int i = 0; i < n; i++) if (vs_thread_simpid(list[i]) == want) return i;
+  return -1;
+}
+
 static void child_body(const Cfg &c, vs_shared *shm, const std::vector<int> &choices, int horizon) {
   if (!freopen("/dev/null", "w", stdout)) {}
   if (!freopen("/dev/null", "w", stderr)) {}
@@ -467,9 +505,12 @@ static void child_body(const Cfg &c, vs_shared *shm, const std::vector<int> &cho
     procs.back()->cfg = c;
     if (p > 0 && c.restart2 != "=") procs.back()->cfg.restart = c.restart2;
   }
+  if (!io::abs_expect.empty()) vs_set_chooser(abs_chooser, nullptr);
   vs_begin(shm, choices.data(), (int)choices.size(), horizon);
   io::on = true;
-  for (auto &p : procs) p->Start();
+  // a new thread inherits the simulated pid of its creator: create each process thread under its own pid
+  for (auto &p : procs) { vs_set_simpid(p->pid); p->Start(); }
+  vs_set_simpid(0);
   for (auto &p : procs) p->WaitDone();
   io::on = false;
   vs_log(EV_INSTANTS, io::instants, 0);
@@ -690,10 +731,81 @@ static void enter_scratch() {
   }
 }
 
+// one execution projected onto the abstract steps of models/JobFile.tla
+static std::string abs_line(const Cfg &c, const vsx::Exec &x) {
+  const vs_shared *shm = x.shm;
+  std::string s = "verdict=" + std::to_string(x.verdict) + "|abs=";
+  bool first = true;
+  for (int i = 0; i < shm->nevents; i++)
+    if (shm->events[i].kind == EV_ABS) {
+      s += std::string(first ? "" : ",") + std::to_string(shm->events[i].a - PID0 + 1) + ":" + ABSNAME[shm->events[i].b];
+      first = false;
+    }
+  s += "|exec=";
+  first = true;
+  for (int i = 0; i < shm->nevents; i++)
+    if (shm->events[i].kind == EV_EXEC) {
+      s += std::string(first ? "" : ",") + std::to_string(shm->events[i].a / 100 - PID0 + 1) + ":" + std::to_string(shm->events[i].b);
+      first = false;
+    }
+  s += "|final=";
+  std::vector<JobView> fin;
+  std::string err;
+  if (load_view("e/jobs.xml", fin, err) && complete_view(fin, c.jobs)) {
+    for (size_t j = 0; j < fin.size(); j++) {
+      int h = 0, o = 0;
+      if (fin[j].has_host) { size_t q = fin[j].host.rfind(':'); if (q != std::string::npos) h = atoi(fin[j].host.c_str() + q + 1) - PID0 + 1; }
+      if (fin[j].has_output) { size_t q = fin[j].output.rfind("by"); if (q != std::string::npos) o = atoi(fin[j].output.c_str() + q + 2) - PID0 + 1; }
+      s += std::string(j ? ";" : "") + fin[j].status.substr(0, 1) + ":" + std::to_string(h) + ":" + std::to_string(o);
+    }
+  } else s += "unreadable";
+  s += "|msg=" + x.message;
+  return s;
+}
+
 int main(int argc, char **argv) {
   bsx::Args a = bsx::parse(argc, argv);
   int horizon = 3500;
   std::string outpath = a.out;
+  if (a.kv.count("dump-traces") || a.kv.count("run-abs")) {
+    // model conformance support (harness/C10_model.py); file arguments are absolute paths
+    bool forced = a.kv.count("run-abs") > 0;
+    auto m = bsx::kvs(forced ? a.kv["run-abs"] : a.kv["dump-traces"]);
+    Cfg c = parsecfg(m);
+    std::string outfile = a.kv["outfile"], infile = forced ? a.kv["absfile"] : "";
+    enter_scratch();
+    FILE *out = fopen(outfile.c_str(), "w");
+    if (!out) return 2;
+    vsx::Explorer ex;
+    ex.horizon = horizon;
+    ex.body = [&](vs_shared *shm, const std::vector<int> &ch) { child_body(c, shm, ch, horizon); };
+    if (!forced) {
+      int bound = atoi(a.kv["bound"].c_str());
+      ex.dfs({}, 0, bound, [&](const vsx::Exec &x) { fprintf(out, "%s\n", abs_line(c, x).c_str()); return true; });
+    } else {
+      FILE *in = fopen(infile.c_str(), "r");
+      if (!in) return 2;
+      char *line = nullptr;
+      size_t cap = 0;
+      while (getline(&line, &cap, in) > 0) {
+        std::string l(line);
+        while (!l.empty() && (l.back() == '\n' || l.back() == '\r')) l.pop_back();
+        io::abs_expect.clear();
+        if (!l.empty())
+          for (auto &t : bsx::split(l, ',')) {
+            auto f = bsx::split(t, ':');
+            int step = 0;
+            for (int k = 1; k <= 9; k++) if (f[1] == ABSNAME[k]) step = k;
+            io::abs_expect.push_back({atoi(f[0].c_str()) + PID0 - 1, step});
+          }
+        vsx::Exec x = ex.run({});
+        fprintf(out, "%s\n", abs_line(c, x).c_str());
+      }
+      fclose(in);
+    }
+    fclose(out);
+    return 0;
+  }
   if (!outpath.empty() && outpath[0] != '/') { char cwd[4096]; if (getcwd(cwd, sizeof cwd)) outpath = std::string(cwd) + "/" + outpath; }
   enter_scratch();
   if (a.has_case) {
